@@ -92,12 +92,39 @@ def impl_kernel(case):
     return int(ierr), [int(v) for v in idx[:k]], [float(v) for v in w[:k]]
 
 
+def mkpoints(pts, how="array"):
+    """The Voronoi points in the form they are handed to `voronoi` (same values in every form; a form that
+    cannot hold the values exactly falls back to the plain float64 array):
+      array    C-contiguous float64 (n, 2)            list     nested Python lists
+      rowview  every other row of a larger array      colview  two columns (stride 2) of a wider array
+      int      int64 array (whole-number coordinates) f32      float32 array (values exact in float32)
+      1d       a single point as an array of shape (2,)"""
+    a = np.array(pts, dtype=np.float64).reshape(-1, 2)
+    if how == "list":
+        return [[float(x), float(y)] for x, y in a]
+    if how == "rowview":
+        b = np.full((2 * len(a) + 1, 2), 1e9)
+        b[1::2] = a
+        return b[1::2]
+    if how == "colview":
+        b = np.full((len(a), 5), -1e9)
+        b[:, 1:4:2] = a
+        return b[:, 1:4:2]
+    if how == "int" and len(a) and np.all(np.abs(a) < 2 ** 52) and np.all(a == np.floor(a)):
+        return a.astype(np.int64)
+    if how == "f32" and len(a) and np.all(np.abs(a) < 1e30) and np.all(a.astype(np.float32).astype(np.float64) == a):
+        return a.astype(np.float32)
+    if how == "1d" and len(a) == 1:
+        return a[0].copy()
+    return a
+
+
 def impl_voronoi(case):
     from hydrodiy.gis.grid import voronoi
     cat = mkcatchment(case)
     cm.mark(case)
     with np.errstate(all="ignore"):
-        w = voronoi(cat, np.array(case["pts"], dtype=np.float64).reshape(-1, 2))
+        w = voronoi(cat, mkpoints(case["pts"], case.get("pts_as", "array")))
     return [float(v) for v in w]
 
 
@@ -119,7 +146,7 @@ def run_session(case, on_intersect, on_voronoi):
     Operations (slot numbers name the objects):
       new s outlet [inlets] | delineate s outlet (re-delineation of an existing object) | fromdict s cells cellsf |
       add d a b | sub d a b | clone d a | roundtrip d a (from_dict(to_dict)) |
-      intersect s grid filled | voronoi s pts | plot s filled | touch s what
+      intersect s grid filled | voronoi s pts [form] | plot s filled | touch s what
     A state-changing operation the library refuses (exception) drops the object; later steps on a
     missing object are skipped, so that every stored session replays deterministically.
     Returns the list of (token, sub-case, values at the time of the call, live result objects)."""
@@ -176,10 +203,11 @@ def run_session(case, on_intersect, on_voronoi):
             held.append((on_intersect(sub, r, step), sub, r, live))
         elif name == "voronoi":
             sub = dict(geo, kind="voronoi", cells=[int(v) for v in cat.idxcells_area], pts=op[2],
+                       pts_as=op[3] if len(op) > 3 else "array",
                        dyadic=bool(case.get("dyadic")) and all(
                            abs(v) < 2 ** 21 and (v * 16).is_integer() for p in op[2] for v in p))
             with np.errstate(all="ignore"):
-                w = voronoi(cat, np.array(op[2], dtype=np.float64).reshape(-1, 2))
+                w = voronoi(cat, mkpoints(op[2], op[3] if len(op) > 3 else "array"))
             on_voronoi(sub, [float(v) for v in w], step)
         else:
             # readers that are not part of the property: whatever they do or raise is not judged here,
@@ -611,7 +639,8 @@ def gen_voronoi(rng, S):
         # every coordinate a multiple of 2^-4 below 2^21: the kernel's arithmetic is exact
         dyadic = all(abs(v) < 2 ** 21 and (v * 16).is_integer() for p in pts for v in p)
     return {"kind": "voronoi", "nr_a": nr, "nc_a": nc, "xll_a": xll_a, "yll_a": yll_a, "csz_a": csz_a,
-            "cells": cells, "pts": [list(p) for p in pts], "dyadic": dyadic}
+            "cells": cells, "pts": [list(p) for p in pts], "dyadic": dyadic,
+            "pts_as": rng.choice(["array"] * 5 + ["list", "rowview", "colview", "int", "f32", "1d"])}
 
 
 def gen_comb(rng, nr, nc):
@@ -690,7 +719,7 @@ def gen_session(rng, S, G):
         if m < 0.55:
             return ["intersect", s, rng.choice(grids), rng.random() < 0.4]
         if m < 0.72:
-            return ["voronoi", s, points()]
+            return ["voronoi", s, points(), rng.choice(["array", "array", "list", "rowview", "colview", "int", "f32"])]
         if m < 0.84:
             return ["plot", s, rng.random() < 0.4]
         return ["touch", s, rng.choice(["extent", "isin", "to_dict", "str", "boundary"])]
@@ -797,7 +826,7 @@ def ring_flow(rng, nr, nc):
     return fd, orow * nc + ocol, [r * nc + k for r, k in joined], cells, [r * nc + k for r, k in interior]
 
 
-LATTICE_KINDS = ["blob", "holed", "delin-holed", "delin-inlet", "delin-any"]
+LATTICE_KINDS = ["blob", "holed", "extreme", "delin-holed", "delin-inlet", "delin-any"]
 RATIO_LEVELS = {
     # exactly the catchment's own cell size
     "one": [1.0],
@@ -887,8 +916,15 @@ def gen_lattice(rng, S, G, combos, nsteps=10):
                 m = rng.random()
                 return "kw" if m < 0.6 else "pos" if m < 0.75 else "npbool" if m < 0.9 or filled else "default"
 
-            if kind in ("blob", "holed"):
-                if kind == "blob":          # a full rectangle: nothing to fill
+            if kind in ("blob", "holed", "extreme"):
+                if kind == "extreme":       # no cell / one cell / every cell of the flow grid / all but inner ones
+                    m = rng.choice(["none", "one", "all", "all", "all-but"])
+                    inner = [r * nc + k for r in range(1, nr - 1) for k in range(1, nc - 1)]
+                    pits = set(rng.sample(inner, rng.randint(1, min(2, len(inner))))) if m == "all-but" else set()
+                    cells = [] if m == "none" else [rng.randrange(n)] if m == "one" else \
+                        [c for c in range(n) if c not in pits]
+                    cellsf = sorted(cells) if m in ("none", "one") else list(range(n))
+                elif kind == "blob":        # a full rectangle: nothing to fill
                     r0, k0 = rng.randint(0, nr - 1), rng.randint(0, nc - 1)
                     r1, k1 = rng.randint(r0, nr - 1), rng.randint(k0, nc - 1)
                     cells = [r * nc + k for r in range(r0, r1 + 1) for k in range(k0, k1 + 1)]
@@ -969,7 +1005,20 @@ def run(ctx):
                 "voronoi, plot_area, extent, isin, to_dict, str, delineate_boundary), combine (+, -, onto a new or an "
                 "existing name), clone, to_dict/from_dict round trip, re-delineate at another outlet, use again - every "
                 "intersect / voronoi step judged for the cell set the object's accessors report at that step, and "
-                "every earlier result read again after the sequence; non-trivial = distinct (kind, class) signature")
+                "every earlier result read again after the sequence; option combinations of Catchment.intersect, "
+                "each at least once per run (thorough 8 times) + random ones drawn towards the catchment's own "
+                "geometry: kind of catchment (full rectangle / loop or pitted rectangle with holes / no, one, every "
+                "cell of the flow grid, all but inner ones - installed with from_dict; loop draining round sinks / "
+                "loop with an excluded inlet area / comb or forest - made by delineate_area, scipy's filling "
+                "included) x filled False/True (keyword, positional, numpy bool, omitted default) x cell-size ratio "
+                "(exactly 1 / next to 1 on both sides: 1+-1e-9, 1+-4e-6, 1+2^-40, 1+2e-5, 1.001 / elsewhere: 2, "
+                "2+-1e-9, 1.5, 2.5, 3, 4, random, finer grids 0.5 and 0.75) x corner offset (none / tiny: one ulp, "
+                "5e-9, 4e-6 relative, 1e-12 and 1e-7 cells, on one or both axes / whole fine or coarse cells / one "
+                "axis only / fractions of a cell) x dimensions (those of the flow grid / one row or column more or "
+                "less, transposed / covering, 1x1, one row, one column, double), the grid being a new object or "
+                "the catchment's own flow-direction grid object; voronoi points handed over as float64 array, nested "
+                "list, row-strided view, column-strided view, int64, float32, 1-d single point; "
+                "non-trivial = distinct (kind, class) signature")
     ctx.trusted = cm.STD_TRUST + ["numpy fancy-index assignment, np.min/np.max/np.unique (modelled, compared on every case)",
                                   "Catchment.from_dict used to install arbitrary cell sets (area / filled area)",
                                   "operation sequences: the cell set of an object is the one its public accessors "
@@ -1044,7 +1093,7 @@ def run(ctx):
         fails, nties = oracle_voronoi(case, w)
         i = add(term_voronoi(case, w), replay,
                 sig_head + (min(len(case["cells"]), 3), len(case["pts"]), nties > 0, case["dyadic"],
-                            len(case["pts"]) > len(case["cells"])))
+                            len(case["pts"]) > len(case["cells"]), case.get("pts_as", "array")))
         stats["voronoi"] += 1
         stats["voronoi_cells_with_ties"] += nties
         stats["voronoi_empty"] += len(case["cells"]) == 0
